@@ -10,12 +10,12 @@ def deps(f):
         src = open(os.path.join(root, f)).read()
     except OSError:
         return out
-    for line in src.splitlines():
-        line = line.strip()
-        if not line.startswith('From V Require'):
-            continue
-        line = line[len('From V Require'):].rstrip('.').strip()
-        for mod in line.split():
+    # a Require sentence may span several lines: it ends at the first period followed by white space
+    for m in re.finditer(r'From\s+V\s+Require\b', src):
+        rest = src[m.end():]
+        end = re.search(r'\.(\s|$)', rest)
+        sentence = rest[:end.start()] if end else rest
+        for mod in sentence.split():
             if mod in ('Import', 'Export'):
                 continue
             out.append(mod.replace('.', '/') + '.v')
